@@ -1882,9 +1882,14 @@ def serialize_graph_into(
                 continue
             else:
                 serialize_value_into(graph_proto.value_info.add(), node_output)
+    # Annotations for inputs and initializers were added above
+    annotated_names = input_names.union(from_.initializers)
     for output in from_.outputs:
         serialize_value_into(graph_proto.output.add(), from_=output)
-        _maybe_add_quantization_annotation(graph_proto, output)
+        if output.name not in annotated_names:
+            # An output that is also an input or an initializer, or that is listed twice, is annotated once
+            _maybe_add_quantization_annotation(graph_proto, output)
+            annotated_names.add(output.name)
     if from_.metadata_props:
         _serialize_metadata_props_into(graph_proto.metadata_props, from_.metadata_props)
 
